@@ -145,6 +145,10 @@ def run(chk):
 
     vlib.conclude_differential(chk, state, more)
     chk.coverage["samples"] = samples
+    try:  # schedule half (end to end on the federation lab): tools/props/c08e.py
+        import props.c08e as c08e; c08e.run_part(chk)
+    except ImportError:
+        pass
 
 
 def _corpus_line(case):
